@@ -926,3 +926,5 @@ def replay(case):
         return None
     return (f'handler program {prog!r}, {case["method"]}, outcome {case["outcome"]}, hooks/error handlers {cfg!r}, '
             f'file_wrapper={case["fw"]}: {v[1]}')
+
+MANIFEST['text'] += ' Further layers: static_file behind a route under 14 Range x 4 If-Modified-Since forms, status lines given as text through five ways, and sequences that re-configure catchall with setup() around failing error handlers.'
